@@ -145,13 +145,13 @@ def partitions(tier, seed):
             if has_table and nstr >= 1:
                 # decomposition (DESIGN.md C01): (A) everything but the table symbolic, table None;
                 # (B) table + integers + all flag bits symbolic, strings fixed
-                parts.append(_part(m, 1, 150, '_a', with_table=False,
+                parts.append(_part(m, 1, 300, '_a', with_table=False,
                                    note='(A) all args symbolic (strings <= 1 code point), table None'))
-                parts.append(_part(m, 1, 150, '_b', fixed=_fixed_strings(m),
+                parts.append(_part(m, 1, 300, '_b', fixed=_fixed_strings(m),
                                    note='(B) table in {None, {}, {k: n}}, integers and all flag '
                                         'bits symbolic, strings fixed'))
             else:
-                parts.append(_part(m, 1, 150))
+                parts.append(_part(m, 1, 300))
         else:
             strlen = 3 if nstr <= 1 else 2
             if has_table and nstr >= 2:
